@@ -16,6 +16,7 @@ func init() {
 	register(&PropDef{ID: "C02", Title: "Disk filespace obeys the same contract as the in-memory one", Rules: rulesC02,
 		Explanation: "Decided (structural necessary conditions, packages diskfs and disk): R1 the disk writer opens with a write mode, O_CREATE and O_TRUNC (replace, like the memory writer); R2 WriteFile writes the file only on the nil edge of a MkdirAll of the directory of that same path (parents are created); R3 in the copy helpers of package disk every path handed to a creating primitive derives from the destination parameter, and a directory node met by the walk is created under the destination on that edge (empty directories are copied); R4 every use of the FileInfo inside a filepath.WalkFunc literal is dominated by the nil edge of the callback's error parameter (a missing source gives an error, not a nil dereference); R5 effect table: per Filespace method the set of mutating host primitives reachable through static calls is within the set confirmed on the reference tree — read-type methods reach none, Remove reaches os.Remove but not os.RemoveAll, copies never link (os.Link/Symlink) or rename; R6 disk.CopyFile closes its destination on every path and returns the error of that Close on the success path; R7 every host path a method touches is exactly root + reduced argument (or its directory): no suffix is appended, so nothing outside the addressed path changes. Path confinement of all 16 methods is C03.R1/R4. " +
 			"R8 path parameters pass no byte-altering string function (Replace, ToLower, TrimSpace, Trim with a cutset other than '/') in any backend, view or normaliser — names are opaque bytes, so both backends address the same node for the same spelling; R9 a boolean query of the disk backend answers anything but false only where its os.Stat succeeded (Stat fails for other reasons than absence). " +
+			"Added in round 4: R5 treats os.Create and os.OpenFile as one effect (create-or-open for writing; a read-only OpenFile is no mutation); R6 follows disk.CopyFile to the private worker it forwards to and, where the destination is opened with os.OpenFile, requires a write mode, O_CREATE and O_TRUNC on every path and never O_APPEND. " +
 			"NOT decided: equality of results and trees between the memory and the disk backend on any history; host file-system semantics; permissions.",
 	})
 }
